@@ -1346,10 +1346,13 @@ class XMLSchemaBase(XsdValidator, ElementPathMixin[Union[SchemaType, XsdElement]
                     context.max_depth = resource.lazy_depth
             else:
                 if prev_ancestors != ancestors:
-                    k = 0
+                    # index of the first ancestor that differs (the common
+                    # length if one chain is a prefix of the other one)
                     for k in range(min(len(ancestors), len(prev_ancestors))):
                         if ancestors[k] is not prev_ancestors[k]:
                             break
+                    else:
+                        k = min(len(ancestors), len(prev_ancestors))
 
                     path_ = f"{'/'.join(e.tag for e in ancestors)}/ancestor-or-self::node()"
                     xsd_ancestors = [
